@@ -77,3 +77,8 @@ func (r *Run) drawName(prng io.Reader, n int, kind string) (string, error) {
 	r.monitor = append(r.monitor, ReadEvent{Reader: fmt.Sprintf("%T", prng), Actor: r.current, Offset: -1, N: n, Kind: kind})
 	return "prg:" + digestHex(buf), nil
 }
+
+// Drawn returns the variable that Field.Random yields for the named stream at a byte offset.
+func (r *Run) Drawn(reader string, off int) *F {
+	return &F{f: r.field, p: r.newVar(fmt.Sprintf("rnd:%s@%d", reader, off))}
+}
